@@ -136,8 +136,8 @@ def gen_cost_ops(rng, n):
             continue
         if rng.random() < 0.3:
             p = rng.choice(list(RAW))
-            mode = rng.choice(['none', 'fresh', 'copy', 'attached', 'attached'])
-            vc = None if mode == 'none' else (rng.randrange(len(COST_TABLE[RAW[p]])) if mode == 'fresh' else DONOR_CODE[p])
+            mode = rng.choice(['none', 'fresh', 'copy', 'equal', 'equal', 'attached', 'attached'])
+            vc = None if mode in ('none', 'equal') else (rng.randrange(len(COST_TABLE[RAW[p]])) if mode == 'fresh' else DONOR_CODE[p])
             ops.append([p, vc, mode])
             continue
         p = rng.choice(COST_PROPS + ('number_per', 'number_total', 'currency'))
@@ -270,6 +270,11 @@ def run_cost_walk(text: str, ops, listed=None):
         mode = op[2] if len(op) > 2 else None
         before_text = text_of(posting)
         before_obs = observe_cost(cs)
+        if mode == 'equal':
+            # a fresh node EQUAL to the current one through the raw property (a later different value must
+            # still reach the document: a replace that skips equal nodes leaves an orphan behind)
+            vc = before_obs['getters'][COST_PROPS.index(RAW[prop])]
+            mode = 'none' if vc is None else 'fresh'
         res = 0
         donor2 = donor2_snap = assigned = assigned_getters = None
         try:
@@ -292,6 +297,7 @@ def run_cost_walk(text: str, ops, listed=None):
         obs = observe_cost(cs)
         obs['res'] = res
         obs['assigned'] = assigned
+        obs['op'] = [prop, vc] + ([mode] if mode is not None else [])
         steps.append(obs)
         kinds = [c[0] for c in obs['comps']]
         where = {'kind': 'cost', 'text': text, 'ops': ops[:k + 1]}
@@ -372,6 +378,26 @@ DIRECTED = [
 ]
 
 
+def systematic_walks():
+    """Every listed initial form ({} and {{}} x every amount-like piece, incl. compound amounts with only the
+    per-unit / only the total number) x every ordered pair of the six number/currency assignments (None and a
+    value), x every single date/label/merge assignment, x 'equal node then different value' on each property."""
+    amt = [['number_per', None], ['number_per', 6], ['number_total', None], ['number_total', 5],
+           ['currency', None], ['currency', 1]]
+    other = [['date', None], ['date', 2], ['label', None], ['label', 3], ['merge', True], ['merge', False]]
+    for piece, _ in AMOUNT_PIECES:
+        for lb, rb in (('{', '}'), ('{{', '}}')):
+            text = P_ + lb + piece + rb
+            for a in amt:
+                for b in amt:
+                    yield text, True, [list(a), list(b)]
+            for a in other:
+                yield text, True, [list(a)]
+            for rp, p, v in (('raw_number_per', 'number_per', 2), ('raw_number_total', 'number_total', 2),
+                             ('raw_currency', 'currency', 2)):
+                yield text, True, [[rp, None, 'equal'], [p, v], [rp, None, 'equal'], [p, None]]
+
+
 EXN_NUM = {'ValueError': 1, 'IndexError': 2, 'KeyError': 3, 'AssertionError': 4, 'TypeError': 5,
            'NotImplementedErr': 6, 'OutOfFuel': 7, 'ModelStuck': 8}
 
@@ -386,7 +412,9 @@ def fmt_ops(ops):
         tab = COST_TABLE.get(RAW.get(p, p)) or TXN_TABLE.get(p)
         v = vc if (p == 'merge' or vc is None or tab is None) else tab[vc]
         txt = f'{p} = {v!r}' if not isinstance(v, D) else f'{p} = {v}'
-        out.append(txt + (f' <{op[2]} node>' if len(op) > 2 and op[2] != 'none' else ''))
+        if len(op) > 2 and op[2] == 'equal':
+            txt = f'{p} = <fresh node equal to the current one>'
+        out.append(txt + (f' <{op[2]} node>' if len(op) > 2 and op[2] not in ('none', 'equal') else ''))
     return '; '.join(out)
 
 
@@ -413,6 +441,8 @@ def coq_spec(g):
 
 
 def coq_cstep(op, obs=None):
+    if obs is not None and obs.get('op'):
+        op = obs['op']            # 'equal' resolved to the value the property had
     prop, vc = op[0], op[1]
     if prop == 'raw_cost':
         return f'SCost {coq_cost(obs["assigned"])} {coq_bool(op[2] == "attached")}'
@@ -473,6 +503,7 @@ def check_cost(ctx: common.Ctx, fixed: bool):
     def walks():
         for t, l, o in DIRECTED:
             yield t, l, [list(x) for x in o]
+        yield from systematic_walks()
         for _ in range(n_walks):
             t, l = gen_cost_text(ctx.rng)
             yield t, l, gen_cost_ops(ctx.rng, ctx.rng.choice([1, 2, 3, 5, 8] if ctx.quick else [2, 4, 8, 16]))
@@ -571,7 +602,7 @@ def check_from_value(ctx: common.Ctx):
 # =============================================================================================
 # payee / narration
 # =============================================================================================
-TXN_TABLE = {'payee': STRS, 'narration': STRS}
+TXN_TABLE = {'payee': STRS, 'narration': STRS, 'payee_eq': STRS, 'narration_eq': STRS}
 
 
 def esc(s):
@@ -597,7 +628,8 @@ def gen_txn_text(rng):
 
 
 def gen_txn_ops(rng, n):
-    return [[rng.choice(['payee', 'narration']), None if rng.random() < 0.4 else rng.randrange(len(STRS))]
+    return [[rng.choice(['payee_eq', 'narration_eq']), None] if rng.random() < 0.2 else
+            [rng.choice(['payee', 'narration']), None if rng.random() < 0.4 else rng.randrange(len(STRS))]
             for _ in range(n)]
 
 
@@ -628,8 +660,20 @@ def run_txn_walk(text: str, ops):
     sib0 = txn_siblings(t)
     steps, failure = [], None
     for k, (prop, vc) in enumerate(ops):
-        value = None if vc is None else STRS[vc]
-        setattr(t, prop, value)
+        if prop.endswith('_eq'):
+            # assign, through the raw property, a fresh node EQUAL to the current one (then later a different
+            # value): a replace that skips equal nodes would leave the model pointing at an orphan
+            prop = prop[:-3]
+            cur = getattr(t, prop)
+            vc = code(STRS, cur)
+            if cur is None:
+                setattr(t, prop, None)
+            else:
+                setattr(t, 'raw_' + prop, models.EscapedString.from_value(cur))
+            ops[k] = [prop + '_eq', vc]
+        else:
+            value = None if vc is None else STRS[vc]
+            setattr(t, prop, value)
         tri = txn_tri(t)
         printed = text_of(t)
         try:
@@ -668,7 +712,7 @@ def coq_tri(t):
 
 
 def coq_tcase(children, init, ops, steps):
-    body = coq_list(f'({"OPayee" if p == "payee" else "ONarration"} {oz(vc)}, {coq_tri(a)}, {coq_tri(b)})'
+    body = coq_list(f'({"OPayee" if p.startswith("payee") else "ONarration"} {oz(vc)}, {coq_tri(a)}, {coq_tri(b)})'
                     for (p, vc), (a, b) in zip(ops, steps))
     return f'mktcase {coq_tri(children)} {coq_tri(init)} {body}'
 
@@ -680,6 +724,7 @@ def check_txn(ctx: common.Ctx):
         text, strs = gen_txn_text(ctx.rng)
         ops = gen_txn_ops(ctx.rng, ctx.rng.choice([1, 2, 4, 6]))
         try:
+            ops = [list(o) for o in ops]
             children, init, steps, failure = run_txn_walk(text, ops)
         except Exception as e:
             ctx.fail('tie', 'txn-walk-crashed', f'{type(e).__name__}: {e} on {text!r} {ops}')
@@ -692,12 +737,12 @@ def check_txn(ctx: common.Ctx):
 
             def fails(o, _t=text):
                 try:
-                    f = run_txn_walk(_t, o)[3]
+                    f = run_txn_walk(_t, [list(x) for x in o])[3]
                 except Exception:
                     return None
                 return f[0] if f else None
             small = shrink_ops(fails, failure[2]['ops'])
-            f2 = run_txn_walk(text, small)[3] or failure
+            f2 = run_txn_walk(text, [list(x) for x in small])[3] or failure
             ctx.monitor_failure(f2[0], f2[1], f2[2])
         cases.append(coq_tcase(children, init, ops, steps))
         metas.append((text, ops))
@@ -888,6 +933,57 @@ def generic_one(sample: str, path, prop: str, value):
     return None
 
 
+SIG_GEN_EQUAL = 'C09:generic:equal-node-then-value'
+
+
+def equal_then_different(sample: str, path, prop: str, value):
+    """Assign, through the raw property, a fresh node EQUAL to the current one, then a different value through
+    the value property; the value must be read back, in memory and after print + parse."""
+    import copy
+    from autobean_refactor.models import meta_value_internal
+    from autobean_refactor.models.internal import value_properties as vp
+    models, parser, _ = impl()
+    f = parser.parse(sample, models.File)
+    inst = locate(f, path)
+    cls = type(inst).__name__
+    desc = next(vars(k)[prop] for k in type(inst).__mro__ if prop in vars(k))
+    cur = getattr(inst, prop)
+    if cur is None or cur == value:
+        return None
+    if type(desc).__name__ == 'optional_meta_value_property':
+        inner_prop = desc.inner_property
+        node = meta_value_internal.from_value(cur) if isinstance(cur, (str, D, datetime.date, bool)) else copy.deepcopy(cur)
+    else:
+        inner_prop = desc._inner_property
+        raw = inner_prop.__get__(inst)
+        inner = getattr(desc, '_inner_type', type(raw))
+        if isinstance(desc, vp.optional_indented_string_property):
+            node = inner.from_value(cur, indent=desc._indent_property.__get__(inst).value)
+        else:
+            node = inner.from_value(cur)
+    if not hasattr(inner_prop, '__set__'):
+        return None
+    if not isinstance(cur, (str, D, datetime.date, bool)):
+        cur = copy.deepcopy(cur)      # the node about to be replaced cannot be compared afterwards
+    inner_prop.__set__(inst, node)
+    if getattr(inst, prop) != cur:
+        return SIG_GEN_EQUAL, f'{cls}.raw {prop} = <node equal to the current one> reads back {getattr(inst, prop)!r}, was {cur!r}'
+    setattr(inst, prop, value)
+    if getattr(inst, prop) != value:
+        return SIG_GEN_EQUAL, f'{cls}.{prop} = {value!r} after an equal-node assignment reads back {getattr(inst, prop)!r}'
+    if prop in NO_REPARSE:
+        return None
+    printed = text_of(f)
+    try:
+        got = getattr(locate(parser.parse(printed, models.File), path), prop)
+    except Exception as e:
+        got = f'<{type(e).__name__}>'
+    if got != value:
+        return SIG_GEN_EQUAL, (f'{cls}.{prop} = {value!r} after an equal-node assignment: print + parse reads {got!r} '
+                               f'(printed {printed!r})')
+    return None
+
+
 def check_generic(ctx: common.Ctx):
     models, parser, _ = impl()
     reported = set()
@@ -922,6 +1018,12 @@ def check_generic(ctx: common.Ctx):
                         r = generic_one(sample, path, prop, v)
                     except Exception as e:
                         r = (SIG_GEN_GET, f'{cls}.{prop} = {v!r} raised {type(e).__name__}: {e}')
+                    if not r and v is not None:
+                        try:
+                            r = equal_then_different(sample, path, prop, v)
+                            ctx.count('generic_equal_node_cases')
+                        except Exception as e:
+                            r = (SIG_GEN_EQUAL, f'{cls}.{prop}: equal node then {v!r} raised {type(e).__name__}: {e}')
                     if r and (r[0], cls, prop) not in reported:
                         reported.add((r[0], cls, prop))
                         ctx.monitor_failure(r[0], r[1] + f' [sample {sample!r}]',
@@ -1091,7 +1193,7 @@ def run(ctx: common.Ctx):
                 'the correspondence only; 1-8 (thorough: 2-16) random assignments incl. None and values that must be '
                 'refused; non-trivial = a refusal, a brace flip or a change of component kinds happened. '
                 'txn: headers with 0/1/2 strings, tags, comment, meta, postings x 1-6 payee/narration assignments. '
-                '7 directed walks run first (whole-cost assignment between uses of the value properties; number and currency as separate components); 10% of the random forms have number and currency as separate components (monitored; known finding), 10% other forms outside the quantifier (correspondence only, monitored after a whole-cost assignment); 8% of the steps assign a whole cost to cost_spec.raw_cost (deep copy of a parsed cost, from_children-built, or attached = must be refused). cost walks mix in 30% raw-level assignments (raw_number_per/raw_number_total/raw_currency) with None, a fresh node, a deep copy of another posting\'s node, or that attached node itself (must be refused, target and donor unchanged). generic: every public required/optional value property of every tree model reachable in the sample '
+                'directed walks run first, then systematically every listed initial form x every ordered pair of number/currency assignments x equal-node-then-different-value; txn and cost walks include raw assignments of a fresh node EQUAL to the current one. 7+ directed walks (whole-cost assignment between uses of the value properties; number and currency as separate components); 10% of the random forms have number and currency as separate components (monitored; known finding), 10% other forms outside the quantifier (correspondence only, monitored after a whole-cost assignment); 8% of the steps assign a whole cost to cost_spec.raw_cost (deep copy of a parsed cost, from_children-built, or attached = must be refused). cost walks mix in 30% raw-level assignments (raw_number_per/raw_number_total/raw_currency) with None, a fresh node, a deep copy of another posting\'s node, or that attached node itself (must be refused, target and donor unchanged). generic: every public required/optional value property of every tree model reachable in the sample '
                 'documents x values of its domain incl. None. from_value: random argument records.')
     ctx.assumptions += [
         'RepeatedNodeWrapper.insert/append/pop/__setitem__ on the cost components are the plain list operations '
